@@ -46,6 +46,11 @@ def _decision_value(d):
 def _mk_fn_behaviour(fid, ns):
     n_out = len(ns.get("outs", []))
     gen = bool(ns.get("gen"))
+    if ns.get("beh"):
+        from hgmon import beh as _b
+
+        b = ns["beh"]
+        return lambda kw, _bb=b: _b.apply(_bb, kw)
 
     def beh(kw, _fid=fid, _n=n_out, _gen=gen):
         return rt.term(_fid, kw, _n, _gen)
@@ -54,6 +59,19 @@ def _mk_fn_behaviour(fid, ns):
 
 
 def _mk_gate_behaviour(ns):
+    if ns.get("cond"):
+        from hgmon import beh as _b
+
+        c, kind = ns["cond"], ns["k"]
+        th, el = ns.get("then"), ns.get("else")
+
+        def cbeh(kw):
+            r = _b.cond(c, kw)
+            if kind == "ifelse":
+                return bool(r)
+            return _decision_value(th if r else el)
+
+        return cbeh
     table = ns["table"]
     key = ns.get("key") or (ns["params"][0]["n"] if ns["params"] else None)
     kind = ns["k"]
